@@ -213,7 +213,7 @@ class Scheduler:
         me = current()
         if self.fatal is not None and me is not None:
             raise self.fatal
-        if me is None or me is not self.cur or me.done:
+        if me is None or me is not self.cur or me.done or me.no_preempt:
             return
         if self.step >= self.max_steps:
             self.fatal = StepCap(f"step cap {self.max_steps} exceeded")
